@@ -176,6 +176,40 @@ func ruleR09_2(w *World, r *Report) {
 		r.Check(good, owner+"/record for rollback", u.Pos(st.Pos()), "recorded on success for local and remote operations alike",
 			"the operations committed since the rollback snapshot are recorded only on some paths (e.g. only for local operations), or not the whole transaction buffer is recorded (recorded: "+canonName(st.Val)+"): a later rollback restores the snapshot and loses the others, or replays them under shifted identifiers")
 	}
+	// every successful end records the buffer: from the true edge of the success test each path reaches the store to
+	// rollbackOps or leaves with an error (an "empty transaction" shortcut would keep the identifier the marker took
+	// out of the replay list and out of the push buffer: later identifiers shift, the push buffer has a hole)
+	for _, b := range fn.Blocks {
+		if len(b.Instrs) == 0 {
+			continue
+		}
+		ifi, isIf := b.Instrs[len(b.Instrs)-1].(*ssa.If)
+		if !isIf {
+			continue
+		}
+		l := normLit(condEdge{ifi.Cond, true})
+		if m, _ := boolLitOn(l, ".success"); !m {
+			continue
+		}
+		entry := b.Succs[0]
+		if !l.Pol {
+			entry = b.Succs[1]
+		}
+		reach, bad := mustReachFromBlock(entry, func(in ssa.Instruction) bool {
+			if st, ok := in.(*ssa.Store); ok && strings.HasSuffix(canonName(st.Addr), ".rollbackOps") {
+				return true
+			}
+			if ret, ok := in.(*ssa.Return); ok && returnsNonNilLast(ret) {
+				return true
+			}
+			return false
+		})
+		pos := u.Pos(ifi.Pos())
+		if bad != nil {
+			pos = u.Pos(bad.Pos())
+		}
+		r.Check(reach, owner+"/every successful end is recorded", pos, "rollbackOps updated on every successful path", "a successful transaction can end without its buffer being recorded (and delivered): the operation identifier its marker consumed is neither replayed by a later rollback nor pushed")
+	}
 	// SetNumOfOps(len(opBuffer)) before delivery on withOp paths
 	arg := canonName(setNum.Common().Args[len(setNum.Common().Args)-1])
 	okNum := arg == "len($0.txCtx.opBuffer)" && !reachableFrom(deliver.(ssa.Instruction), setNum.(ssa.Instruction))
